@@ -1,6 +1,11 @@
 """C15 — world-stopping operations see other threads only while they are stopped.
 
-translate  : translate/c16_callpaths.py (gate sites of with_locked_env: which variant of the model is the code).
+translate  : translate/c16_callpaths.py (gate sites of with_locked_env) and translate/c15_exits.py (every ctx.store(None) of vm.rs: re-check after
+             the retraction, fence, re-publication; fence at the end of stop_threads; heap-lock guard around clone + registration in
+             spawn_native_thread) -> GenExitsTable.lean + obligations exit_rechecks_after_retract, stop_requests_fenced,
+             spawn_registers_under_heap_lock (excused only while K15a / K15b are OPEN in KNOWN_FINDINGS.txt) -> which MODEL is the code:
+             Model.lean (`fix`) or the repaired ModelR.lean; a failing input is excused as K15a / K15b only if the model of the code
+             has the defect.
 prove      : lake build SteelVerif.C15.Props + axiom audit: scan_exclusive_repaired / env_coherent_repaired (the repaired handshake, full
              strength, no guard), R.Litmus (store buffers); scan_exclusive_partial(_code), env_coherent_partial(_code),
              env_published_partial for all N and all interleavings under the decidable guard G; negation witnesses
@@ -14,6 +19,7 @@ correspond : (a) model schedules of corpus/C15/*.msched on the driver; (b) FORCE
 oracle     : the specification S: a scanned thread is parked or inside a primitive (scanviol = 0, no thread runs on a swapped
              table); an assignment completed by one thread is seen by every thread afterwards (values).
 """
+import json
 import os
 import random
 import re
@@ -25,8 +31,8 @@ META = {
     "ready": True,
     "category": "proof",
     "technique": "Lean 4 invariant proofs over two step-level transition systems of the safepoint handshake (the code as it is, under a guard; the REPAIRED handshake, no guard; any number of threads, all interleavings) + a store-buffer litmus for the Dekker pair + forced interleavings of real threads through cfg(steel_verif) yield points + multi-threaded programs with delay injection and an in-core `being scanned` detector",
-    "level_text": "Theorems (lean/SteelVerif/C15/Props.lean; model = C15/Model.lean: N script threads and stopper roles as one transition system, every access to a thread's pause flag, state, published pointer, park token, the threads mutex and the heap mutex one atomic step; stop_threads, enumerate_stacks / call_per_ctx, resume_threads, with_locked_env, enter_safepoint, the dispatch poll, spawn-before-registration and host interrupts modelled as the code has them): scan_exclusive_partial_code - for every number of threads and EVERY interleaving that respects the decidable guard G (rounds do not overlap a spawn or a host interrupt; no stop request reaches a thread between its last exit check and its retraction), a thread whose stack / global table is being inspected or replaced is parked at a safepoint or inside a primitive that published it; env_coherent_partial_code / env_published_partial - when no round is in progress every live thread holds the newest global table. For the current code (heap-lock guard kept during with_locked_env) the guard's clause 'rounds do not overlap each other' is implied: C16/Props.lean scan_exclusive_fixed / env_coherent_fixed state both theorems under the weaker guard GFix. The FULL statements are false for the code as it is, proved from concrete schedules: not_scan_exclusive_code (safepoint exit race, 21 steps, N = 2: finding K15a) and not_env_coherent_code (a thread spawned during a round keeps the old table: K15b). REPAIRED HANDSHAKE (lean/SteelVerif/C15/ModelR.lean, LemmasR, StepR*, PropsR: K15a - every safepoint exit retracts and then re-checks the stop request and re-publishes if one arrived; K15b - spawn-native-thread holds the heap lock from before it clones its state until the child is registered; K17a/K17c - the controller as one word of request bits, every operation one atomic read-modify-write, exit loops wait on STOP only): R.step_inv - EVERY step preserves the invariant, no guard; scan_exclusive_repaired and env_coherent_repaired are the two C15 statements at FULL strength, for every number of threads and every schedule including host interrupt()/resume() on any controller and spawns at any time; scanned_stays / scanned_stop_set (a scanned thread's re-check never reads 'not stopped'), parked_has_wakeup (no lost wake-up in the new loop). R.Litmus (LitmusR.lean): the Dekker pair [stopper: paused.store; ctx.load] / [thread: ctx.store(None); paused.load] with one-slot store buffers - without fences the unsound outcome is reachable (sb_buffered_bad), with a fence between each store and the following load it is not (sb_fenced_safe, all interleavings by exhaustive evaluation). Patches for K15a (with the two fences) and K15b are proposed (.build/C15/proposed-fix-K15a.diff, -K15b.diff); the controller redesign is a model only. NOT a theorem: that the Rust code follows the model. That is the correspondence run: the interleavings of the witnesses and of generated variants are FORCED on real threads through yield-point hooks (the exit race reproduces deterministically: the dispatch loop records that it runs while its thread is being scanned; with the JIT the thread indexes the swapped, empty table and the process aborts), and generated multi-threaded programs run with delay injection under the in-core detector.",
-    "level_note": "The theorems about the repaired handshake are about a PROPOSED change of the code (not applied to /repo by this check); the progress theorem (C16 no_deadlock) is not re-proved for the repaired model. Trusted: Lean kernel (axioms propext, Classical.choice, Quot.sound), harnesses c15 / c16 and the yield-point hooks (add-only, cfg(steel_verif)), the python classification. Modelled, not verified: sequentially consistent atomics in both handshake models (the code loads `paused` Relaxed; for the code as it is a store-buffer delay only widens the window the guard already excludes; for the repaired handshake the one Dekker pair that needs store->load ordering is the litmus R.Litmus), spurious park wake-ups are modelled, OS fairness is not assumed; thread list order = spawn order; the JIT's native code is 'runs until the next helper call'. The `being scanned` detector is read at instruction dispatch only, so in the interpreter a thread that escapes through an enter_safepoint exit re-parks at its next poll before the detector fires (the forced poll-exit schedule and the JIT abort are the observable forms).",
+    "level_text": "Theorems (lean/SteelVerif/C15/Props.lean; model = C15/Model.lean: N script threads and stopper roles as one transition system, every access to a thread's pause flag, state, published pointer, park token, the threads mutex and the heap mutex one atomic step; stop_threads, enumerate_stacks / call_per_ctx, resume_threads, with_locked_env, enter_safepoint, the dispatch poll, spawn-before-registration and host interrupts modelled as the code has them): scan_exclusive_partial_code - for every number of threads and EVERY interleaving that respects the decidable guard G (rounds do not overlap a spawn or a host interrupt; no stop request reaches a thread between its last exit check and its retraction), a thread whose stack / global table is being inspected or replaced is parked at a safepoint or inside a primitive that published it; env_coherent_partial_code / env_published_partial - when no round is in progress every live thread holds the newest global table. For the current code (heap-lock guard kept during with_locked_env) the guard's clause 'rounds do not overlap each other' is implied: C16/Props.lean scan_exclusive_fixed / env_coherent_fixed state both theorems under the weaker guard GFix. The FULL statements are false for the code as it is, proved from concrete schedules: not_scan_exclusive_code (safepoint exit race, 21 steps, N = 2: finding K15a) and not_env_coherent_code (a thread spawned during a round keeps the old table: K15b). REPAIRED HANDSHAKE (lean/SteelVerif/C15/ModelR.lean, LemmasR, StepR*, PropsR: K15a - every safepoint exit retracts and then re-checks the stop request and re-publishes if one arrived; K15b - spawn-native-thread holds the heap lock from before it clones its state until the child is registered; K17a/K17c - the controller as one word of request bits, every operation one atomic read-modify-write, exit loops wait on STOP only): R.step_inv - EVERY step preserves the invariant, no guard; scan_exclusive_repaired and env_coherent_repaired are the two C15 statements at FULL strength, for every number of threads and every schedule including host interrupt()/resume() on any controller and spawns at any time; scanned_stays / scanned_stop_set (a scanned thread's re-check never reads 'not stopped'), parked_has_wakeup (no lost wake-up in the new loop). R.Litmus (LitmusR.lean): the Dekker pair [stopper: paused.store; ctx.load] / [thread: ctx.store(None); paused.load] with one-slot store buffers - without fences the unsound outcome is reachable (sb_buffered_bad), with a fence between each store and the following load it is not (sb_fenced_safe, all interleavings by exhaustive evaluation). The K15a (with the two fences) and K15b repairs are in /repo (51ca93da, 467a8def); translate/c15_exits.py re-derives from the source on every run that every ctx.store(None) is followed by a fenced re-check and a re-publication, that stop_threads fences its requests and that spawn-native-thread clones and registers under the heap lock (obligations exit_rechecks_after_retract, stop_requests_fenced, spawn_registers_under_heap_lock in GenExits.lean, no exceptions once the findings are `fixed:`), and the check then compares the real engine with the repaired model (Driver repaired). The controller of the code is still two cells: ModelR is the model of the code for schedules without interrupt()/suspend(); with a host interrupt a scanned thread still leaves its safepoint (K15c, forced deterministically; oracle: a thread reported at the head of its dispatch loop while another thread is between scan.begin and scan.end on it); the one-word controller is proposed as .build/C15/proposed-fix-K17ac.diff. Progress of the repaired handshake: C16/ProgressR.lean (no_deadlock_repaired, stop_round_terminates, awaited_settles). NOT a theorem: that the Rust code follows the model. That is the correspondence run: the interleavings of the witnesses and of generated variants are FORCED on real threads through yield-point hooks (the exit race reproduces deterministically: the dispatch loop records that it runs while its thread is being scanned; with the JIT the thread indexes the swapped, empty table and the process aborts), and generated multi-threaded programs run with delay injection under the in-core detector.",
+    "level_note": "The one-word controller of the repaired model is a PROPOSED change (K17ac diff); exits and spawn of the repaired model are the code. Trusted: Lean kernel (axioms propext, Classical.choice, Quot.sound), harnesses c15 / c16 and the yield-point hooks (add-only, cfg(steel_verif)), the python classification. Modelled, not verified: sequentially consistent atomics in both handshake models (the code loads `paused` Relaxed; for the code as it is a store-buffer delay only widens the window the guard already excludes; for the repaired handshake the one Dekker pair that needs store->load ordering is the litmus R.Litmus), spurious park wake-ups are modelled, OS fairness is not assumed; thread list order = spawn order; the JIT's native code is 'runs until the next helper call'. The `being scanned` detector is read at instruction dispatch only, so in the interpreter a thread that escapes through an enter_safepoint exit re-parks at its next poll before the detector fires (the forced poll-exit schedule and the JIT abort are the observable forms).",
 }
 
 # a thread looked a global up in the empty table installed by another thread's with_locked_env: before /repo 4b9c5de8 native
@@ -74,6 +80,34 @@ def is_race_class(sched_text):
     return False
 
 
+def scanned_thread_outside(sched_text, out_lines):
+    """Oracle S on a forced schedule with two script threads (0 and 1): some thread X is HELD between scan.begin and scan.end (it
+    is reading / replacing the state of the other thread Y) and Y is then reported held at `vm.dispatch` - the head of the dispatch
+    loop, outside every safepoint.  Returns (X, Y) or None.  The k-th schedule line (comments / prog excluded) is answered by the
+    k-th `ok`/`timeout` line."""
+    cmds = [l.split() for l in sched_text.splitlines() if l.strip() and not l.startswith(("#", "prog "))]
+    inside = {}
+    for f, o in zip(cmds, out_lines):
+        if not f or not f[0].isdigit():
+            continue
+        t = f[0]
+        ok = o.startswith("ok ")
+        if len(f) == 2 and f[1] not in ("free",):
+            if ok and f[1] == "scan.begin":
+                inside[t] = True
+            elif ok and f[1] == "vm.dispatch" and any(x != t for x in inside):
+                return (next(x for x in inside if x != t), t)
+            elif ok:
+                inside.pop(t, None)
+        elif len(f) >= 2 and f[1] in ("go", "free"):
+            inside.pop(t, None)
+    return None
+
+
+def has_interrupt(sched_text):
+    return any(l.split()[:1] in (["int"], ["hint"]) for l in sched_text.splitlines() if l.strip())
+
+
 def gen_forced(rnd, n):
     out = []
     combos = [(h1, h0, op) for h1 in HOLD1 for h0 in HOLD0 for op in OPS]
@@ -101,7 +135,8 @@ def gen_forced(rnd, n):
 def run_sched(text, jit, attempt=0):
     rc, so, se = C.run_bin([C.bin_path("c15")], text, timeout=90, env={"STEEL_JIT": jit})
     r = [l for l in so.splitlines() if l.startswith("result ")]
-    kv = {"rc": rc, "stderr": (se or "")[-1200:], "timeouts": [l for l in so.splitlines() if l.startswith("timeout")]}
+    kv = {"rc": rc, "stderr": (se or "")[-1200:], "timeouts": [l for l in so.splitlines() if l.startswith("timeout")],
+          "lines": [l for l in so.splitlines() if l.startswith(("ok ", "timeout "))]}
     if r:
         kv.update(dict(x.split("=", 1) for x in r[-1].split()[1:] if "=" in x))
         kv["raw"] = r[-1]
@@ -120,7 +155,14 @@ def judge_forced(ctx, name, text, jit, kv, known, stats):
     scanviol = int(kv.get("scanviol", "0") or 0)
     panics = int(kv.get("threadpanics", "0") or 0)
     aborted = kv.get("outcome") in ("abort", "none") or bool(ABORT_K15A.search(kv["stderr"]))
-    bad = scanviol > 0 or panics > 0 or aborted or not kv.get("outcome", "").startswith("finished")
+    overlap = scanned_thread_outside(text, kv.get("lines", []))
+    interrupted = has_interrupt(text) and "Interrupted_by_user" in kv.get("outcome", "")      # the expected result of an interrupt
+    bad = scanviol > 0 or panics > 0 or aborted or overlap is not None or not (kv.get("outcome", "").startswith("finished") or interrupted)
+    if overlap is not None and has_interrupt(text) and "K15c" in known:
+        stats["k15c_forced"] = stats.get("k15c_forced", 0) + 1
+        kf(ctx, "K15c", "id=K15c class=interrupt_while_scanned_inside_safepoint replay=%s (forced schedule %s, jit=%s: thread %s reached "
+           "vm.dispatch while thread %s was between scan.begin and scan.end on it)" % (known["K15c"]["replay"], name, jit, overlap[1], overlap[0]))
+        return
     if not bad:
         stats["forced_ok"] += 1
         if is_race_class(text):
@@ -252,7 +294,25 @@ def run(ctx):
     rc, out = C.sh(["python3", os.path.join(C.VERIF, "translate", "c16_callpaths.py")], timeout=120)
     if rc != 0:
         ctx.violation("C15-translator.txt", "translate/c16_callpaths.py failed (rc=%d):\n%s" % (rc, out[-2000:]), no_input=True)
-    pr = C.prove(ctx, "C15", ["c15driver", "SteelVerif.C16.GenCallPaths"])
+    rc, out = C.sh(["python3", os.path.join(C.VERIF, "translate", "c15_exits.py")], timeout=120)
+    facts = {"exits_repaired": False, "spawn_locked": False}
+    if rc != 0:
+        ctx.violation("C15-translator-exits.txt", "translate/c15_exits.py failed (rc=%d):\n%s" % (rc, out[-2000:]), no_input=True)
+    else:
+        try:
+            facts = json.load(open(os.path.join(C.VERIF, ".build", "C15", "exits.json")))
+        except (OSError, ValueError) as e:
+            ctx.violation("C15-translator-exits.txt", "translate/c15_exits.py wrote no facts: %s" % e, no_input=True)
+    # the model of the code: a finding excuses a failing input only if the model of the code has the defect
+    code_model = "repaired" if facts.get("exits_repaired") and facts.get("spawn_locked") else "fix"
+    if facts.get("exits_repaired"):
+        known.pop("K15a", None)
+    if facts.get("spawn_locked"):
+        known.pop("K15b", None)
+    if facts.get("controller_one_word"):
+        known.pop("K15c", None)
+    stats["code_model"] = code_model
+    pr = C.prove(ctx, "C15", ["c15driver", "SteelVerif.C16.GenCallPaths", "SteelVerif.C15.GenExits"])
     ok, log = C.build_harness(ctx, ["c15", "c16"])
     if not ok:
         ctx.violation("C15-harness-build.txt", "the harness no longer builds against /repo:\n" + log, no_input=True)
@@ -271,6 +331,19 @@ def run(ctx):
             if exp and exp.group(1).strip() != got.strip():
                 ctx.violation("C15-model-%s.txt" % fn, "# model schedule verdict changed\n# expected: %s\n# got: %s\n%s" % (
                     exp.group(1), got, text), no_input=True)
+    # (a') the exit-race and late-registration interleavings on the MODEL OF THE CODE (driver default = the model the translator
+    # selected): the model's verdict is what the forced schedules on the real engine are compared with below
+    for base, what in (("exit_race", "scanOk"), ("late_registration", "envOk")):
+        fn = base + ("_repaired" if code_model == "repaired" else "") + ".msched"
+        text = "\n".join(l for l in open(os.path.join(cdir, fn)).read().splitlines() if l.strip() not in ("fix", "repaired")) + "\n"
+        rc, so, se = C.run_bin([C.driver_path("c15driver"), code_model], text, timeout=30)
+        got = (so.strip().splitlines() or ["<none>"])[-1]
+        m = re.search(what + r"=(\w+)", got)
+        stats["model_of_code_" + base] = m.group(1) if m else got
+        stats["model_cases"] += 1
+        if not m or (m.group(1) == "true") != (code_model == "repaired"):
+            ctx.violation("C15-model-of-code-%s.txt" % base, "# the model of the code (%s) gave an unexpected verdict on %s\n# got: %s\n" % (
+                code_model, fn, got), no_input=True)
     # (b) forced schedules: corpus first, then generated
     forced = []
     for fn in sorted(os.listdir(cdir)):
@@ -318,6 +391,10 @@ def run(ctx):
             else:
                 ctx.notes.append("open finding %s did not reproduce in %d runs of its witness program (timing dependent; "
                                  "the forced schedules are the deterministic form)" % (kid, len(r)))
+    if "K15c" in known and "K15c" not in _SEEN:
+        text = open(os.path.join(C.VERIF, known["K15c"]["replay"])).read()
+        kv = run_sched(text, "false")
+        judge_forced(ctx, "K15c-witness", text, "false", kv, known, stats)
     if not pr["ok"] and not ctx.violations:
         ctx.violation("C15-proof-broken.txt", "proof obligations of SteelVerif.C15 that no longer check:\n" + "\n".join(
             "%s: %s" % f for f in pr["failed"]) + "\n", no_input=True)
@@ -338,6 +415,9 @@ def run(ctx):
         "forced_race_class_without_symptom": stats["race_class_silent"], "forced_not_schedulable": stats["unsched"][:10],
         "program_runs": stats["prog_runs"], "program_ok": stats["prog_ok"], "program_K15a": stats["k15a_prog"],
         "program_K15b": stats["k15b_prog"], "model_schedules": stats["model_cases"],
+        "code_model": stats["code_model"], "translator_facts": {k: facts.get(k) for k in ("exit_sites", "stop_fenced", "exits_repaired", "spawn_locked", "controller_one_word")},
+        "forced_K15c": stats.get("k15c_forced", 0),
+        "model_of_code_exit_race_scanOk": stats.get("model_of_code_exit_race"), "model_of_code_late_registration_envOk": stats.get("model_of_code_late_registration"),
         "axioms": pr.get("axioms", {}), "proof_failures": ["%s: %s" % f for f in pr["failed"]],
     }
     ctx.assumptions = ["SC atomics", "OS fairness not assumed", "detector read at instruction dispatch only"]
